@@ -134,6 +134,8 @@ pub fn dense_footprints<S: USet>(e: &mut Eng<S>, hists: usize) {
             let saved = e.mode;
             if quiet && e.mode != Mode::Unscripted {
                 e.quiet = true;
+                // large builds: a dense insert draws at most a few values; keep the per-step script short
+                e.script_len = 64;
             }
             let seq: Vec<u64> = match order {
                 0 | 1 => (0..n).collect(),
@@ -702,4 +704,28 @@ pub fn prims<S: USet>(e: &mut Eng<S>, thorough: bool) {
             }
         }
     }
+}
+
+/// D15 replay: with growth draws that are all multiples of the capacity, a full bitmap table of `c`
+/// consecutive keys regrows one bucket per nested `insert`; the nesting depth is about `c / 15`.
+/// Run in a thread with the default 2 MiB stack, in a subprocess (a stack overflow aborts the process).
+pub fn deep_regrow<S: USet>(c: usize, stack_kb: usize) -> bool {
+    let h = std::thread::Builder::new().stack_size(stack_kb * 1024).spawn(move || {
+        let bits = 8u64;
+        let mut s = S::wcb(c, bits);
+        for i in 0..c as u64 {
+            tinyset::verif_rand::push(u64::MAX);
+            s.ins((2000 + 8 * c as u64 + i) * bits);
+        }
+        tinyset::verif_rand::clear();
+        let cap0 = s.capacity();
+        for _ in 0..(c * 4 + 1000) {
+            tinyset::verif_rand::push(0);
+        }
+        let r = s.ins((2000 + 9 * c as u64 + c as u64 / 8 + 40) * bits);
+        let left = tinyset::verif_rand::clear();
+        eprintln!("DEEP type={} c={} cap_before={} cap_after={} draws_used={} ret={} len={}", S::NAME, c, cap0, s.capacity(), c * 4 + 1000 - left, r, s.len());
+        r && s.len() == c + 1
+    }).unwrap();
+    h.join().unwrap_or(false)
 }
